@@ -175,7 +175,12 @@ pub fn trigger(name: &str, args: &Value, cfg: &Cfg, history: &[Op], finding: &Va
             let margin = argf(args, "margin", 10.0);
             let (prev, cur) = (cs[cs.len() - 2], cs[cs.len() - 1]);
             let r_hi = cur.r_cur.max(cur.r_tgt);
-            prev.segment == cur.segment && (prev.t_max().ceil() - 1.0 / r_hi) * r_hi > margin - 2.0
+            // frames the call can produce beyond chunk * ratio: the room reserved at the end of
+            // the previous chunk, ceil(largest previous step), less the room this call reserves,
+            // in output frames (with a ramp inside the call the reserve is not a single number;
+            // the coarser estimate is kept there)
+            let reserve_now = if cur.r_cur == cur.r_tgt { (1.0 / r_hi).ceil() } else { 1.0 / r_hi };
+            prev.segment == cur.segment && (prev.t_max().ceil() - reserve_now) * r_hi > margin - 2.0
         }
         // C01: upsampling with f_cutoff = calculate_cutoff and a tone so close to the passband
         // edge that its first image lies in the near stopband of the window
